@@ -111,37 +111,43 @@ class C19(Prop):
     id = "C19"
     props_file = "Props/C19.v"
     preamble = ("From Coq Require Import List ZArith QArith.\nImport ListNotations.\n"
-                "From PP Require Import Model.C19.\nOpen Scope Q_scope.\n")
+                "From PP Require Import Model.C19 Model.C19_3d.\nOpen Scope Q_scope.\n")
     n_cases = (60, 500)
     design_ref = "DESIGN.md §5 C19"
     level_text = (
         "Coq theorems (exact rational arithmetic, all node coordinates, any number of faces per "
-        "cell) over an executable transcription of Grid._compute_geometry_2d (oriented branch) and "
-        "_compute_geometry_1d: for every cell whose traversed faces pass the code's own "
-        "orientation check (every node as often end as start: closed node loops, not necessarily "
-        "one loop, any orientation) the signed face normals sum to zero, the computed volume equals "
-        "the shoelace area and does not depend on the temporary centre, sum +-x_f.n_f = 2|K| and "
-        "sum +-(x_f.n_f) x_f = 3|K| x_c; |n_f|^2 = area^2; volumes returned by the oriented branch "
-        "are never negative and are positive for cells star-shaped w.r.t. their temporary centre "
-        "(in particular counter-clockwise convex cells); 1-D: the flip rule makes the normal point "
-        "out of the cell it is computed from, and for outward normals the three identities hold "
-        "with volume |x2-x1| > 0.  Tie: Coq recomputes areas^2, face centres, normals, volumes, "
-        "cell centres of real Cartesian / tensor / triangle grids (1-D, 2-D, dyadic node "
-        "perturbations, faces with reversed node order to reach the fallback decision) in Q and "
-        "compares with relative tolerance 1e-9.  3-D grids (Cartesian, tensor, tetrahedral, "
-        "perturbed, boxes tapered to frusta, all rescaled by powers of two down to 2^-20 and to thin "
-        "layers) are covered by the exact-fractions oracle only; every oracle comparison is relative "
-        "to the terms of the identity, and the grid must cover the domain REQUESTED from the "
-        "constructor (node span and sum of volumes) "
-        "(all identities of the property, incl. positive volumes summing to the domain measure).")
+        "cell) over executable transcriptions of Grid._compute_geometry_1d, _compute_geometry_2d "
+        "(oriented branch) and _compute_geometry_3d (planar faces).  2-D: for every cell whose "
+        "traversed faces pass the code's own orientation check (every node as often end as start: "
+        "closed node loops, any orientation) the signed face normals sum to zero, the computed "
+        "volume equals the shoelace area independent of the temporary centre, sum +-x_f.n_f = 2|K| "
+        "and sum +-(x_f.n_f) x_f = 3|K| x_c; |n_f|^2 = area^2; volumes of the oriented branch are "
+        "never negative and positive for cells star-shaped w.r.t. their temporary centre (incl. "
+        "convex cells).  1-D: the flip rule makes the normal outward for the cell it is computed "
+        "from; for outward normals the identities hold with |x2-x1| > 0.  3-D: the face normal "
+        "(sub-triangle sum around any centre) is the vector area of the node loop; for every "
+        "watertight cell (each directed edge as often as its reverse) the signed face normals sum "
+        "to zero; with sub-triangles oriented like their faces the sub-tetrahedron volume is "
+        "independent of the temporary centre and, for planar faces, sum +-x_f.n_f = 3|K| with the "
+        "code's area-weighted face centres; an executable check of these hypotheses is proved sound "
+        "and evaluated by Coq on every cell of every real 3-D grid of the tie.  Tie: Coq recomputes "
+        "areas^2, face centres, normals, volumes, cell centres of real Cartesian / tensor / triangle "
+        "/ tetrahedral grids in 1-D, 2-D and 3-D (all CartGrid constructor forms, dyadic "
+        "perturbations, frusta, power-of-two rescalings 2^-20..2^10 incl. thin layers, reversed face "
+        "orientation -> fallback decision) in Q and compares at relative tolerance 1e-9 at the "
+        "grid's own scale.  Perturbed hexahedra (twisted faces) are covered by the exact-fractions "
+        "oracle only; the oracle checks every identity of the property on all grids, and that the "
+        "grid covers the domain REQUESTED from the constructor.")
     level_note = (
-        "NOT proved: any 3-D statement (C19_3d_normals_sum_zero etc. are not in the development; "
-        "the oracle checks all identities numerically on 3-D grids); the legacy convex fallback "
-        "branch of the 2-D code is not modelled beyond the decision to take it; embedded 1-D/2-D "
-        "grids (plane normal by normalisation needs sqrt); floating-point rounding; theorems are "
-        "over Q (polynomial identities, so valid in any field, but stated for rationals).  "
-        "Orientation check 2/3 (|S| < 1e-5*mean(area)^2) is modelled as S = 0.  Trusted: Coq "
-        "kernel + vm_compute, harness, exact float->rational conversion.")
+        "NOT proved: the 3-D centroid identity; anything about twisted (non-planar) 3-D faces beyond "
+        "normals-sum-zero (|sub_normal| is irrational there; the model returns G3NonPlanar); the "
+        "legacy convex fallback branch of the 2-D code (only the decision to take it is modelled); "
+        "embedded 1-D/2-D grids; floating-point rounding; theorems are over Q (polynomial "
+        "identities, valid in any field, but stated for rationals).  2-D orientation check 2/3 "
+        "(|S| < 1e-5*mean(area)^2) is modelled as S = 0.  In the 3-D model |sub_normal| is "
+        "represented by |sub_normal.N|/|N| (exact for planar faces) and every vector operation is "
+        "followed by Qred (proved invisible up to ==).  Trusted: Coq kernel + vm_compute, harness, "
+        "exact float->rational conversion.")
     technique = ("Coq proof (edge-wise polynomial identities by ring/field + permutation/telescoping "
                  "argument over balanced edge sets) + vm_compute execution correspondence in Q; "
                  "exact-fractions oracle for 1-3-D")
@@ -158,6 +164,8 @@ class C19(Prop):
     trusted = ["float -> exact rational conversion of the implementation's arrays; tolerance band "
                "1e-9*(1+|x|) evaluated inside Coq on dyadic, well-conditioned inputs"]
     assumptions = ["1-D/2-D tie and theorems: non-embedded grids (x-axis / plane z = 0)",
+                   "3-D tie and Gauss / volume theorems: planar faces whose sub-triangles are oriented "
+                   "like the face (checked by Coq per cell: cell_hyps_b)",
                    "every 2-D face has exactly two nodes; cell_faces values are +-1"]
 
     def __init__(self):
@@ -368,7 +376,7 @@ class C19(Prop):
     # ------------------------------------------------------------------ Coq tie
     def coq_case(self, case, res):
         if res["dim"] == 3:
-            return None
+            return self._coq_case_3d(case, res)
         if res["dim"] == 1:
             nodes = clist([p[0] for p in res["nodes"]], qz)
             fn = clist(res["fn_indices"], lambda i: f"{i}%nat")
@@ -390,6 +398,23 @@ class C19(Prop):
              f"o_fc := {clist(res['fc'], qpt)}; o_fn := {clist(res['fnrm'], qpt)}; "
              f"o_vol := {clist(res['vol'], qz)}; o_cc := {clist(res['cc'], qpt)} |}}")
         return f"agree2 {g} (Some {o})"
+
+    def _coq_case_3d(self, case, res):
+        # planar faces only (the model's domain): boxes, frusta, tetrahedra (also perturbed);
+        # perturbed hexahedra have twisted faces and stay oracle-only
+        if case["kind"] != "tet" and case.get("perturb", "none") != "none":
+            return None
+        q3 = lambda p: f"({qz(p[0])},{qz(p[1])},{qz(p[2])})"
+        ip, ix = res["fn_indptr"], res["fn_indices"]
+        faces = clist(range(res["nf"]),
+                      lambda f: clist(ix[ip[f]:ip[f + 1]], lambda i: f"{i}%nat"))
+        cf = clist(res["cf"], lambda e: f"({e[0]}%nat,{e[1]}%nat,({e[2]})%Z)")
+        g = (f"{{| k_nodes := {clist(res['nodes'], q3)}; k_faces := {faces}; k_cf := {cf}; "
+             f"k_nc := {res['nc']}%nat |}}")
+        o = (f"{{| q_area2 := {clist([F(a) ** 2 for a in res['areas']], qz)}; "
+             f"q_fc := {clist(res['fc'], q3)}; q_fn := {clist(res['fnrm'], q3)}; "
+             f"q_vol := {clist(res['vol'], qz)}; q_cc := {clist(res['cc'], q3)} |}}")
+        return f"agree3 {g} (Some {o})"
 
     def nontrivial(self, case, res):
         return res["nc"] > 1 or case["perturb"] != "none"
